@@ -147,9 +147,13 @@ def check_readers(ctx):
         stay = cnd.canon(t, True)  # what holds while the loop goes on
         if len(stay) == 1:
             (atom, pol), = stay
-            m = re.fullmatch(r"parser\.peek_token\(\)\.value (==|in) ('(?:[^'\\]|\\.)*'|\"(?:[^\"\\]|\\.)*\")", atom)
+            m = re.fullmatch(r"parser\.peek_token\(\)\.value (==|in) ('(?:[^'\\]|\\.)*'|\"(?:[^\"\\]|\\.)*\"|parser\.\w+|SMLParser\.\w+)", atom)
             if m and not pol:
-                lit = ast.literal_eval(m.group(2))
+                if m.group(2).startswith(("parser.", "SMLParser.")):
+                    lit = repo.const("SMLParser", m.group(2).split(".", 1)[1])  # a class constant of the parser (operators, ...)
+                    ctx.require(isinstance(lit, str), f"{q}: `{m.group(2)}` is not a string constant of SMLParser")
+                else:
+                    lit = ast.literal_eval(m.group(2))
                 if m.group(1) == "==":
                     term = {lit}
                 else:
